@@ -541,6 +541,11 @@ package ctfe
 //@ at vc assert [validates-submitted-chain-with-log-options] vc.rawChain == req.Chain && vc.validationOpts == li.validationOpts
 //@ at ip assert [tests-the-leaf-of-the-validated-path] ip.cert == vc.res0[0]
 
+//@ func NewCertValidationOpts
+//@ props C02 C17
+//@ pure
+//@ ensures [options-carry-exactly-the-arguments] result.trustedRoots == trustedRoots && result.rejectExpired == rejectExpired && result.rejectUnexpired == rejectUnexpired && result.notAfterStart == notAfterStart && result.notAfterLimit == notAfterLimit && result.acceptOnlyCA == acceptOnlyCA && result.extKeyUsages == extKeyUsages && len(result.rejectExtIds) == 0
+
 //@ func ValidateChain
 //@ props C02 C18
 //@ arith int
